@@ -3,9 +3,16 @@
 package main
 
 import (
+	"io"
+	"log"
 	"net"
 	"sync"
 )
+
+func init() {
+	// the collector's logger is set up in main(); give the harnesses a silent one
+	logger = log.New(io.Discard, "", 0)
+}
 
 // C12 / C13 — the real worker functions are called directly. Environment:
 //  * the UDP channel is scripted with three datagrams and then closed; the quit channel never fires;
